@@ -328,7 +328,7 @@ MANIFEST_ENTRY = dict(
     text=('Contracts on Policy.run_on, POMDPPolicy.run_on (valid trajectory, stop rule, agent-state update, frame: only the supplied generator), '
           'calc_returns (defining recursion, all rewards and discounts) and evaluate_on (exactly the averages of its own roll-outs). The real loops '
           'run under a demonic generator, so every sampled history up to the stated step cap is explored and each clause proved by z3.'),
-    note='Bounded: skeleton families, step caps <=3/4, simulation counts <=2 (tier B); sampling laws not decided.',
+    note='Bounded: skeleton families, step caps <=3/4, simulation counts <=2 (tier B); sampling laws not decided. Tier U: Policy.run_on and POMDPPolicy.run_on with a symbolic step cap over an abstract model.',
 )
 END_MANIFEST_ENTRY = True
 
